@@ -873,6 +873,9 @@ func (in *interp) stmt(a *act, n *Node, d int, ls []string) Completion {
 			}
 		}
 
+	case Nest:
+		return normalEmpty()
+
 	case GenNew:
 		in.seq++
 		in.emit(Ev("G", a.id, id, n.Gen, in.seq))
